@@ -142,9 +142,11 @@ PROPS = {
                     "from its parameter count, and with UndeclaredIdentifier iff the name is neither (call_rule: each error in its own category).  "
                     "DECLARED TYPES (unit resolver_assign): after `make x get e`, first declaration or re-declaration in the same scope, the static "
                     "type later uses of x are checked against is e's type (dynamic if e has none).  RETURN TYPES (unit return_fixpoint): every "
-                    "refinement pass re-infers EVERY function of the block, so a signature first inferred from not-yet-typed callees is corrected.  "
+                    "refinement pass re-infers EVERY function of the block, so a signature first inferred from not-yet-typed callees is corrected; a "
+                    "`return` whose expression mentions a name the function binds itself (parameter, local, nested function) is Dynamic whatever a "
+                    "same-named outer declaration's type is (no false rejection).  "
                     "STATEMENTS (unit resolver_stmt): a variable reference is UndeclaredIdentifier and `x get e` is AssignmentToUndeclared exactly "
-                    "when no such variable is in scope (e is checked either way); an if checks its condition under the boolean rule and both "
+                    "when no such variable is in scope (e is checked either way), and afterwards the variable's recorded type is the assigned value's type or Dynamic -- never a type it no longer has; an if checks its condition under the boolean rule and both "
                     "branches at its own loop depth; a jasi checks its body -- and only its body -- one loop level deeper and restores the depth; check_block opens the block's three "
                     "scopes, hoists its functions before the first statement, checks EVERY statement in order and leaves the stacks balanced."),
         "not_covered": ("duplicate-function/parameter and reserved-name rules for functions and parameters (loops over HashSet / closures), function "
@@ -267,7 +269,11 @@ PROPS = {
                     "the callee loop of compute_block_facts): a call contributes the callee's transitive captured READS as uses (every local without "
                     "a summary) and defines NOTHING -- captured writes of a callee are may-writes and never make an earlier store dead.  REMOVABILITY "
                     "(K:opt:stmt_effective_class): a statement whose call assigns captured variables is impure, any statement that calls user code is "
-                    "at least may-trap.  EXECUTION "
+                    "at least may-trap.  TRAP CLASS (unit trap_class: the real classify_expr, is_constant_expr, var_read_class and global_builtin_class): an "
+                    "expression classed PureNoTrap -- the only class a skipped statement may have -- is one whose evaluation cannot raise a runtime "
+                    "error, by a may_trap specification written from the runtime's side: an operator, method or command() on an operand whose type "
+                    "literals do not fix, divide/mod, an index, an un-called member, and a read of a variable owned by another function (in an "
+                    "expression or a {name}) can each fail; only literal-only expressions cannot.  EXECUTION "
                     "(unit block_exec): exec_block_with_flow skips exactly the statements the plan prunes -- every other statement of a block that "
                     "completes normally is executed, and no pruned one ever is."),
         "not_covered": ("soundness of the dataflow itself with respect to execution: liveness fix-point, compute_block_facts, summary "
@@ -289,7 +295,10 @@ PROPS = {
                     "carries e's type; no other name's entry changes.  Index chains (unit index_target): `a[i][j]` resolves through the Var node it is rooted in.  Blocks (unit block_exec, the "
                     "real Runtime::exec_block_with_flow over a ghost scope-depth record): a scope is opened first and closed on EVERY successful way "
                     "out -- normal completion, return, comot, next -- so the scope stack is as deep afterwards as before and a later lookup cannot "
-                    "see the block's variables; the block's functions are hoisted before its first statement."),
+                    "see the block's variables; the block's functions are hoisted before its first statement.  Activations (unit block_exec, the head and tail "
+                    "of eval_function_call): a call pushes a mark naming the function and the parameter scope it just opened, and removes exactly "
+                    "that mark on every way out; lookups by local id stop at the newest mark of the local's owner, so another activation's instance "
+                    "is never read or written (the searches themselves are iterator chains: read off the text, DESIGN 0.5)."),
         "not_covered": ("that resolver ids and the dynamic scope search compose to lexical scoping under recursion (needs an invariant "
                         "relating the activation stack to the scope tree across eval_function_call), argument evaluation order, "
                         "per-block predeclaration, assign/define_bound_local (Value's recursive drop glue explodes in CBMC), function tables (user_call_callee, function_by_body)."),
